@@ -10,6 +10,7 @@ var verifHarnesses = map[string]func(){
 	"VerifC15Long":        VerifC15Long,
 	"VerifC17Sio":         VerifC17Sio,
 	"VerifC17SioRestart":  VerifC17SioRestart,
+	"VerifC17SioTime":     VerifC17SioTime,
 	"VerifC17SioCrew":     VerifC17SioCrew,
 	"VerifSioOrderLemmas": VerifSioOrderLemmas,
 }
